@@ -68,6 +68,14 @@ func runSelftest(prop, repo, verif string) selfResult {
 			vs = append(vs, rules.Variant{Name: "seeded:" + meta.ID, Patch: filepath.Join(filepath.Dir(mf), "patch.diff"), Expect: prop + ".", Why: meta.Needs})
 		}
 	}
+	// behaviour-preserving refactorings from independent authors (benign/<id>/patch.diff): every property's rules
+	// must stay silent on each of them
+	if dirs, _ := filepath.Glob(filepath.Join(verif, "benign", "*", "patch.diff")); dirs != nil {
+		sort.Strings(dirs)
+		for _, pf := range dirs {
+			vs = append(vs, rules.Variant{Name: "benign:" + filepath.Base(filepath.Dir(pf)), Patch: pf, Benign: true, Why: "independent behaviour-preserving refactoring"})
+		}
+	}
 	exe, _ := os.Executable()
 	type job struct {
 		i int
@@ -77,7 +85,7 @@ func runSelftest(prop, repo, verif string) selfResult {
 	fails := make([][]selfFailure, len(vs))
 	skipped := make([]bool, len(vs))
 	var wg sync.WaitGroup
-	sem := make(chan struct{}, 4) // a few variants at a time: each sub-process loads the whole program
+	sem := make(chan struct{}, 8) // a few variants at a time: each sub-process loads the whole program
 	for i, v := range vs {
 		wg.Add(1)
 		go func(i int, v rules.Variant) {
